@@ -8,7 +8,7 @@ import (
 
 func init() {
 	register("C03", &propInfo{
-		Explanation: "GD: the library's only wrapper around arbitrary predicates (CheckedFuncSolid, 2D and 3D) calls the predicate only after both bound tests; no library function builds a solid with the unchecked FuncSolid; the Contains methods whose membership test is defined outside their box return non-false only under InBounds(receiver, point). UNIT: bound expressions in bounder.go, solid.go, shapes.go, metaball.go, polytope.go and the toolbox parts are dimensionally consistent (a bound is a length). ABSORB: no bound is computed as x.Max(y.Min(x)) / x.Min(y.Max(x)). GD.WARP: a Contains method whose type inherits Min/Max from an embedded object and asks that object about a remapped point tests InBounds(receiver, point) first. BOUNDDIR: within one combinator type the operands' lower bounds are always folded with one of Coord.Min/Max and the upper bounds with the other.",
+		Explanation: "GD: the library's only wrapper around arbitrary predicates (CheckedFuncSolid, 2D and 3D) calls the predicate only after both bound tests; no library function builds a solid with the unchecked FuncSolid; the Contains methods whose membership test is defined outside their box return non-false only under InBounds(receiver, point). UNIT: bound expressions in bounder.go, solid.go, shapes.go, metaball.go, polytope.go and the toolbox parts are dimensionally consistent (a bound is a length). ABSORB: no bound is computed as x.Max(y.Min(x)) / x.Min(y.Max(x)). GD.WARP: a Contains method whose type inherits Min/Max from an embedded object and asks that object about a remapped point tests InBounds(receiver, point) first. BOUNDFOLD: a Min/Max method of a list combinator that asks its members for their bounds in a loop combines them with Coord.Min/Max in that loop. AXISCMP: two different coordinates are compared component by component on the same axis. BOUNDDIR: within one combinator type the operands' lower bounds are always folded with one of Coord.Min/Max and the upper bounds with the other.",
 		Trusted:     append([]string{"the table of Contains methods that need an explicit InBounds guard (checker/gd.go, 10 rows with reasons, confirmed by reading)"}, unitTrusted...),
 		Fixtures:    []string{"g", "u"},
 		Run: func(c *Ctx) {
@@ -48,6 +48,10 @@ func init() {
 			c.floor("ABSORB", 100)
 			c.runBoundDirection("BOUNDDIR", c.libPkgs()[:3], nil)
 			c.floor("BOUNDDIR", 4)
+			c.runAxisCompare("AXISCMP", append(c.libPkgs()[:4:4], c.fixturePkg("u")), solidFns)
+			c.floor("AXISCMP", 0)
+			c.runBoundFold("BOUNDFOLD", append(c.libPkgs()[:3:3], c.fixturePkg("g")), nil)
+			c.floor("BOUNDFOLD", 6)
 			c.runFieldCanon("FIELDCANON", append(c.libPkgs()[:4:4], c.fixturePkg("g")))
 			c.floor("FIELDCANON", 1)
 			c.runCanonFirst("CANON", append(c.libPkgs()[:4:4], c.fixturePkg("g")))
